@@ -11,6 +11,7 @@ export CARGO_TARGET_DIR=$WT/target CARGO_NET_OFFLINE=true
 {
 echo "== verify_seed"; python3 /verif/selftest/verify_seed.py $R/$ID/OUT/patch.diff
 mkdir -p $WT/$DEST; cp $R/$ID/OUT/$DEMO $WT/$DEST/
+[ -n "$PRE" ] && (cd $WT && eval "$PRE")
 echo "== demo WITHOUT change"; (cd $WT && "$@" 2>&1 | grep -E "^test result|panicked at|^error" | head -30)
 git -C $WT apply $R/$ID/OUT/patch.diff
 echo "== demo WITH change"; (cd $WT && "$@" 2>&1 | grep -E "^test result|panicked at|^error" | head -30)
